@@ -1,19 +1,25 @@
 import Eliot.Conc.Sched
 /-! Model of the *repaired* hand-over from start-up buffering to real destinations (C12, concurrent
-clause): `n` logging threads inside `Destinations.send` versus the thread performing the first
+clause; /repo commit "fix: no message is lost or overtaken while the first destinations are added"):
+`n` logging threads inside `Destinations.send` versus the thread performing the first
 `Destinations.add`, for the skeleton `HandoverSkel.fixedSkel`:
 
+  Destinations.send:              self._send_to(self._destinations, message, logger)      -- evaluates the attribute once
+  Destinations._send_to(ds, m):   for dest in ds: try: dest(m) except Exception ...
   BufferingDestination.__call__:  with self._lock: if self._forward is None: append; return
                                   self._forward(message)
   BufferingDestination.drain(f):  with self._lock: self._forward = f; messages, self.messages = self.messages, []
-  Destinations.add (first call):  _any_added = True; b = self._destinations[0]; self._destinations = list(destinations);
-                                  for message in b.drain(self.send): self.send(message)
+                                                   for message in messages: f(message)
+  Destinations.add (first call):  _any_added = True; b = self._destinations[0]; new = list(destinations)
+                                  b.drain(lambda m: self._send_to(new, m)); self._destinations = new
 
-Granularity: source lines, except that a `with self._lock:` block whose body touches only fields
-that are accessed nowhere else without that lock (`messages`, `_forward`) is one step (mutual
-exclusion makes it atomic).  `for dest in self._destinations` captures the list object once; the
-captured lists are never mutated during the first add, so an iterator is its remaining suffix.
-Mathlib-free, executable. -/
+Granularity: source lines, except that the lock-protected accesses to `messages` / `_forward` at the
+beginning of a `with self._lock:` block are one step together with the acquisition (nobody else can
+touch those fields while the lock is held).  The drain loop runs *while holding* the lock: a logger
+that reaches the buffer meanwhile is blocked (`lockHeld`).  Captured destination lists are never
+mutated during the first add, so an iterator is its remaining suffix.  The re-entrant use of the
+RLock by destination-failure reports of the draining thread is outside the model (destinations do
+not fail here; see C08).  Mathlib-free, executable. -/
 namespace Eliot.Conc.HandoverFix
 
 inductive Tid where
@@ -28,47 +34,55 @@ deriving DecidableEq, Repr
 
 inductive LPc where
   | idle
-  | entered (m : Nat)                                   -- inside send, before the `for` line
-  | iter (m : Nat) (rem : List Dest)                    -- at the `for` line, remaining elements
+  | entered (m : Nat)                                   -- inside send, before `self._send_to(self._destinations, ...)`
+  | iter (m : Nat) (rem : List Dest)                    -- at the `for` line of _send_to, remaining elements
   | call (m : Nat) (d : Dest) (rem : List Dest)         -- at `dest(message)`
   | fwd (m : Nat) (rem : List Dest)                     -- left the buffer's critical section: at `self._forward(message)`
-  | fwdEntered (m : Nat) (rem : List Dest)              -- inside the forwarded send, before its `for` line
-  | fwdIter (m : Nat) (frem : List Dest) (rem : List Dest)
+  | fwdIter (m : Nat) (frem : List Dest) (rem : List Dest)   -- in the forwarded _send_to(new, m)
   | fwdCall (m : Nat) (d : Nat) (frem : List Dest) (rem : List Dest)
 deriving DecidableEq, Repr
 
 inductive APc where
-  | test | setAnyAdded | takeBuffer | swap | drain
-  | resendIter (todo : List Nat)                        -- at `for message in <drained>`
-  | resendAtSend (m : Nat) (todo : List Nat)            -- at `self.send(message)`
-  | resendEntered (m : Nat) (todo : List Nat)
+  | test | setAnyAdded | takeBuffer | mkNew | drainEnter
+  | resendIter (todo : List Nat)                        -- at `for message in messages:` (lock held)
+  | resendAtSend (m : Nat) (todo : List Nat)            -- at `forward(message)`
   | resendNext (m : Nat) (rem : List Dest) (todo : List Nat)
   | resendCall (m : Nat) (d : Nat) (rem : List Dest) (todo : List Nat)
+  | release                                             -- leaving `with self._lock:`
+  | swap                                                -- self._destinations = new_destinations
   | extend                                              -- not the first add: `self._destinations.extend(destinations)`
   | done
 deriving DecidableEq, Repr
 
 structure State where
   anyAdded : Bool
-  /-- which list object `self._destinations` is: false = the initial `[buffer]`, true = `list(destinations)` -/
+  /-- which list object `self._destinations` is: false = the initial `[buffer]`, true = `new_destinations` -/
   cur : Bool
   newList : List Nat
   buf : List Nat
   forward : Bool
+  /-- the buffer's lock is held by the adder (inside drain) -/
+  lockHeld : Bool
   delivered : Nat → List Nat
   logPending : Nat → List Nat
   logPc : Nat → LPc
   addPc : APc
   addDests : List Nat
+  /-- ghost: what the buffer held when drain() took it over -/
+  drained : List Nat
 
 def init (prebuffered : List Nat) (prog : Nat → List Nat) (dests : List Nat) : State :=
-  { anyAdded := false, cur := false, newList := [], buf := prebuffered, forward := false, delivered := fun _ => [],
-    logPending := prog, logPc := fun _ => .idle, addPc := .test, addDests := dests }
+  { anyAdded := false, cur := false, newList := [], buf := prebuffered, forward := false, lockHeld := false,
+    delivered := fun _ => [], logPending := prog, logPc := fun _ => .idle, addPc := .test, addDests := dests,
+    drained := [] }
 
 def upd {α : Type} (f : Nat → α) (t : Nat) (v : α) : Nat → α := fun x => if x = t then v else f x
 
 /-- the list object `self._destinations` refers to now -/
 def curList (s : State) : List Dest := if s.cur then s.newList.map .real else [.buffer]
+
+/-- `new_destinations`, the list the forwarder closes over -/
+def fwdList (s : State) : List Dest := s.addDests.map .real
 
 def deliver (s : State) (d m : Nat) : State :=
   { s with delivered := upd s.delivered d (s.delivered d ++ [m]) }
@@ -83,7 +97,7 @@ def step (n : Nat) (s : State) : Tid → Option State
         match s.logPending i with
         | [] => none
         | m :: r => some { s with logPending := upd s.logPending i r, logPc := upd s.logPc i (.entered m) }
-      | .entered m => some (setL s i (.iter m (curList s)))            -- `for` line: evaluates self._destinations now
+      | .entered m => some (setL s i (.iter m (curList s)))            -- evaluates self._destinations now
       | .iter m rem =>
         match rem with
         | [] => some (setL s i .idle)
@@ -92,37 +106,41 @@ def step (n : Nat) (s : State) : Tid → Option State
         match d with
         | .real k => some (setL (deliver s k m) i (.iter m rem))
         | .buffer =>
-          -- the critical section of BufferingDestination.__call__
-          if s.forward then some (setL s i (.fwd m rem))
+          -- `with self._lock:` of BufferingDestination.__call__ and what it protects
+          if s.lockHeld then none
+          else if s.forward then some (setL s i (.fwd m rem))
           else some (setL { s with buf := s.buf ++ [m] } i (.iter m rem))
-      | .fwd m rem => some (setL s i (.fwdEntered m rem))
-      | .fwdEntered m rem => some (setL s i (.fwdIter m (curList s) rem))
+      | .fwd m rem => some (setL s i (.fwdIter m (fwdList s) rem))
       | .fwdIter m frem rem =>
         match frem with
         | [] => some (setL s i (.iter m rem))
         | .real k :: r => some (setL s i (.fwdCall m k r rem))
-        | .buffer :: _ => none          -- forwarding back into the buffer: outside the model (unreachable)
+        | .buffer :: _ => none
       | .fwdCall m k frem rem => some (setL (deliver s k m) i (.fwdIter m frem rem))
     else none
   | .adder =>
     match s.addPc with
     | .test => some { s with addPc := if s.anyAdded then .extend else .setAnyAdded }
     | .setAnyAdded => some { s with anyAdded := true, addPc := .takeBuffer }
-    | .takeBuffer => if s.cur then none else some { s with addPc := .swap }
-    | .swap => some { s with cur := true, newList := s.addDests, addPc := .drain }
-    | .drain => some { s with forward := true, buf := [], addPc := .resendIter s.buf }     -- critical section of drain()
+    | .takeBuffer => if s.cur then none else some { s with addPc := .mkNew }
+    | .mkNew => some { s with addPc := .drainEnter }
+    | .drainEnter =>
+      -- `with self._lock:` of drain(), `self._forward = forward`, `messages, self.messages = self.messages, []`
+      if s.lockHeld then none
+      else some { s with lockHeld := true, forward := true, buf := [], drained := s.buf, addPc := .resendIter s.buf }
     | .resendIter todo =>
       match todo with
-      | [] => some { s with addPc := .done }
+      | [] => some { s with addPc := .release }
       | m :: t => some { s with addPc := .resendAtSend m t }
-    | .resendAtSend m t => some { s with addPc := .resendEntered m t }
-    | .resendEntered m t => some { s with addPc := .resendNext m (curList s) t }
+    | .resendAtSend m t => some { s with addPc := .resendNext m (fwdList s) t }
     | .resendNext m rem t =>
       match rem with
       | [] => some { s with addPc := .resendIter t }
       | .real k :: r => some { s with addPc := .resendCall m k r t }
       | .buffer :: _ => none
     | .resendCall m k rem t => some { deliver s k m with addPc := .resendNext m rem t }
+    | .release => some { s with lockHeld := false, addPc := .swap }
+    | .swap => some { s with cur := true, newList := s.addDests, addPc := .done }
     | .extend => if s.cur then some { s with newList := s.newList ++ s.addDests, addPc := .done } else none
     | .done => none
 
